@@ -220,6 +220,11 @@ def m2_samples(ctx, al, cfg, aliases):
                 if nstates % 997 == 0 and rname.endswith("]"):
                     ctx.sample({"call": call, "spec": [str(e) if e is not None else v for e, v in exp][:6],
                                 "code": got[:6]})
+                # the caller owns the list it got: whatever it does to it must not show in any later call
+                # (every later route / alias / state compares its own fresh result with the specification)
+                for k in range(len(got)):
+                    got[k] = -7.0
+                got.extend([-7.0, -7.0])
     if nstates != r.distinct:
         raise tlc.MachineryError("dump has %d states, TLC reported %d" % (nstates, r.distinct))
     ctx.traces += nstates
